@@ -134,6 +134,15 @@ theorem total_raiseNow_false (s : State) (e p : Nat) : total (raiseNow s e p fal
 @[simp] theorem cancelFirst_helper (s : State) (j : Nat) : (cancelFirst s j).helper = s.helper := rfl
 @[simp] theorem cancelFirst_exc (s : State) (j : Nat) : (cancelFirst s j).exc = s.exc := rfl
 @[simp] theorem cancelFirst_outs (s : State) (j : Nat) : (cancelFirst s j).outs = s.outs := rfl
+@[simp] theorem withExc_entry (s : State) (e : Nat) : (withExc s e).entry = s.entry := rfl
+@[simp] theorem withExc_flavour (s : State) (e : Nat) : (withExc s e).flavour = s.flavour := rfl
+@[simp] theorem withExc_helper (s : State) (e : Nat) : (withExc s e).helper = s.helper := rfl
+@[simp] theorem withExc_exc (s : State) (e : Nat) : (withExc s e).exc = some e := rfl
+@[simp] theorem withExc_outs (s : State) (e : Nat) : (withExc s e).outs = s.outs := rfl
+@[simp] theorem withExc_st (s : State) (e : Nat) : (withExc s e).st = s.st := rfl
+@[simp] theorem withExc_free (s : State) (e : Nat) : (withExc s e).free = s.free := rfl
+@[simp] theorem withExc_pending (s : State) (e : Nat) : (withExc s e).pendingAtReturn = s.pendingAtReturn := rfl
+@[simp] theorem total_withExc (s : State) (e : Nat) : total (withExc s e) = total s := rfl
 @[simp] theorem releaseOwn_entry (s : State) : (releaseOwn s).entry = s.entry := rfl
 @[simp] theorem releaseOwn_flavour (s : State) : (releaseOwn s).flavour = s.flavour := rfl
 @[simp] theorem releaseOwn_helper (s : State) : (releaseOwn s).helper = s.helper := rfl
@@ -268,8 +277,8 @@ theorem budget_step {n : Nat} (hn : 1 ≤ n) {s s' : State} {op : Op} (hb : tota
           split at h
           · next hh =>
             simp at h; subst h
-            have h3 := free_of_allDone { cancelFirst (complete s i (.raise e)) (complete s i (.raise e)).st.length with exc := some e } h2
-            have := total_raiseNow { cancelFirst (complete s i (.raise e)) (complete s i (.raise e)).st.length with exc := some e } e 0 true (by
+            have h3 := free_of_allDone (withExc (cancelFirst (complete s i (.raise e)) (complete s i (.raise e)).st.length) e) h2
+            have := total_raiseNow (withExc (cancelFirst (complete s i (.raise e)) (complete s i (.raise e)).st.length) e) e 0 true (by
               simp only [total] at h3 h1 hc hb ⊢
               cases hen : s.entry <;> simp [budget, hen, hfl, hh] at hb <;> omega)
             simp only [total] at this h1 hc hb ⊢
@@ -286,7 +295,7 @@ theorem budget_step {n : Nat} (hn : 1 ≤ n) {s s' : State} {op : Op} (hb : tota
       · next e hexc =>
         simp at h; subst h
         have h1 := total_cancelFirst s s.st.length
-        have := total_raiseNow_false { cancelFirst s s.st.length with exc := some e } e (nNotDone s.st)
+        have := total_raiseNow_false (withExc (cancelFirst s s.st.length) e) e (nNotDone s.st)
         simp only [total] at this h1 hb ⊢
         cases hen : s.entry <;> simp [budget, hen, hfl, hh, bonus] at hb this ⊢ <;> omega
       · next e0 hexc =>
@@ -305,6 +314,466 @@ theorem budget_step {n : Nat} (hn : 1 ≤ n) {s s' : State} {op : Op} (hb : tota
           simp only [total] at h1 hb ⊢
           cases hen : s.entry <;> simp [budget, hen, hfl, hh] at hb ⊢ <;> omega
     · simp at h
+
+/-! ### more list lemmas -/
+
+theorem admit_length : ∀ (l : List TSt) (f : Nat), (admit f l).2.length = l.length := by
+  intro l
+  induction l with
+  | nil => intro f; cases f <;> simp [admit]
+  | cons x r ih =>
+    intro f
+    cases f with
+    | zero => simp [admit]
+    | succ f => cases x <;> simp [admit, ih]
+
+theorem admit_done : ∀ (l : List TSt) (f i : Nat) (q : Res), (admit f l).2[i]? = some (.done q) ↔ l[i]? = some (.done q) := by
+  intro l
+  induction l with
+  | nil => intro f i q; cases f <;> simp [admit]
+  | cons x r ih =>
+    intro f i q
+    cases f with
+    | zero => simp [admit]
+    | succ f =>
+      cases i with
+      | zero => cases x <;> simp [admit]
+      | succ i => cases x <;> simp [admit, ih]
+
+theorem cancelBelow_length : ∀ (l : List TSt) (j : Nat), (cancelBelow j l).2.length = l.length := by
+  intro l
+  induction l with
+  | nil => intro j; cases j <;> simp [cancelBelow]
+  | cons x r ih =>
+    intro j
+    cases j with
+    | zero => simp [cancelBelow]
+    | succ j => cases x <;> simp [cancelBelow, ih]
+
+theorem cancelBelow_done : ∀ (l : List TSt) (j i : Nat) (q : Res), (cancelBelow j l).2[i]? = some (.done q) →
+    q = .cancelled ∨ l[i]? = some (.done q) := by
+  intro l
+  induction l with
+  | nil => intro j i q; cases j <;> simp [cancelBelow]
+  | cons x r ih =>
+    intro j i q
+    cases j with
+    | zero => simp only [cancelBelow]; intro h; exact Or.inr h
+    | succ j =>
+      cases i with
+      | zero => cases x <;> simp [cancelBelow] <;> intro h <;> simp [h]
+      | succ i => cases x <;> simp [cancelBelow] <;> exact ih j i q
+
+/-- the tasks before `j` are all finished after `cancelBelow j` -/
+theorem cancelBelow_below : ∀ (l : List TSt) (j i : Nat), i < j → i < l.length → ∃ q, (cancelBelow j l).2[i]? = some (.done q) := by
+  intro l
+  induction l with
+  | nil => intro j i _ h; simp at h
+  | cons x r ih =>
+    intro j i hij hi
+    cases j with
+    | zero => omega
+    | succ j =>
+      cases i with
+      | zero => cases x <;> simp [cancelBelow]
+      | succ i =>
+        have := ih j i (by omega) (by simp at hi; omega)
+        cases x <;> simp [cancelBelow] <;> exact this
+
+theorem allDone_get : ∀ (l : List TSt) (i : Nat), allDone l = true → l[i]? ≠ some .running := by
+  intro l
+  induction l with
+  | nil => simp
+  | cons x r ih =>
+    intro i h
+    simp [allDone] at h ih
+    cases i with
+    | zero => cases x <;> simp [isDone] at h ⊢
+    | succ i => simpa using ih i h.2
+
+theorem allDone_iff (l : List TSt) : allDone l = true ↔ ∀ i, i < l.length → ∃ q, l[i]? = some (.done q) := by
+  induction l with
+  | nil => simp [allDone]
+  | cons x r ih =>
+    simp only [allDone, List.all_cons, Bool.and_eq_true] at ih ⊢
+    constructor
+    · intro ⟨h1, h2⟩ i hi
+      cases i with
+      | zero => cases x <;> simp [isDone] at h1 ⊢
+      | succ i => simpa using ih.mp h2 i (by simpa using hi)
+    · intro h
+      constructor
+      · have := h 0 (by simp)
+        cases x <;> simp [isDone] at this ⊢
+      · apply ih.mpr
+        intro i hi
+        simpa using h (i + 1) (by simpa using hi)
+
+
+/-! ### the shapes a step can take -/
+
+inductive StepCase (s : State) : Op → State → Prop
+  /-- a task finishes and the helper does not react -/
+  | plain (i : Nat) (o : Outcome) (hst : s.st[i]? = some .running) (hout : s.outs[i]? = some o)
+      (hside : s.flavour = .returnExceptions ∨
+        ((s.flavour = .raiseFirst ∨ s.flavour = .raiseCancel) ∧ (s.helper ≠ .active ∨ ∃ v, o = .ret v)) ∨
+        (s.flavour = .online ∧ ∃ v, o = .ret v)) :
+      StepCase s (.finish i) (complete s i o)
+  /-- the last task finishes and the helper returns -/
+  | ret (i : Nat) (o : Outcome) (hst : s.st[i]? = some .running) (hout : s.outs[i]? = some o)
+      (had : allDone (complete s i o).st = true)
+      (hside : (s.flavour ≠ .online ∧ s.helper = .active ∧ (s.flavour = .returnExceptions ∨ ∃ v, o = .ret v)) ∨
+        (s.flavour = .online ∧ s.helper = .exiting ∧ ∃ v, o = .ret v)) :
+      StepCase s (.finish i) (returnNow (complete s i o))
+  | raiseF (i e : Nat) (hst : s.st[i]? = some .running) (hout : s.outs[i]? = some (.raise e))
+      (hfl : s.flavour = .raiseFirst) (hh : s.helper = .active) :
+      StepCase s (.finish i) (raiseNow (complete s i (.raise e)) e (nNotDone (complete s i (.raise e)).st) false)
+  | raiseC (i e : Nat) (hst : s.st[i]? = some .running) (hout : s.outs[i]? = some (.raise e))
+      (hfl : s.flavour = .raiseCancel) (hh : s.helper = .active) :
+      StepCase s (.finish i)
+        (raiseNow (cancelFirst (complete s i (.raise e)) i) e (nNotDone (complete s i (.raise e)).st) false)
+  | onlineFailExit (i e : Nat) (hst : s.st[i]? = some .running) (hout : s.outs[i]? = some (.raise e))
+      (hfl : s.flavour = .online) (hh : s.helper = .exiting) :
+      StepCase s (.finish i)
+        (raiseNow (withExc (cancelFirst (complete s i (.raise e)) (complete s i (.raise e)).st.length) e) e 0 true)
+  | onlineFail (i e : Nat) (hst : s.st[i]? = some .running) (hout : s.outs[i]? = some (.raise e))
+      (hfl : s.flavour = .online) (hh : s.helper ≠ .exiting) :
+      StepCase s (.finish i)
+        (withExc (cancelFirst (complete s i (.raise e)) (complete s i (.raise e)).st.length) e)
+  | bodyRaise (e : Nat) (hfl : s.flavour = .online) (hh : s.helper = .active) (hexc : s.exc = none) :
+      StepCase s (.body (.raise e)) (raiseNow (withExc (cancelFirst s s.st.length) e) e (nNotDone s.st) false)
+  | bodyLate (o : Outcome) (e0 : Nat) (hfl : s.flavour = .online) (hh : s.helper = .active) (hexc : s.exc = some e0) :
+      StepCase s (.body o) (raiseNow s e0 0 false)
+  | bodyRet (v : Nat) (hfl : s.flavour = .online) (hh : s.helper = .active) (hexc : s.exc = none)
+      (had : allDone (releaseOwn s).st = true) :
+      StepCase s (.body (.ret v)) (returnNow (releaseOwn s))
+  | bodyWait (v : Nat) (hfl : s.flavour = .online) (hh : s.helper = .active) (hexc : s.exc = none) :
+      StepCase s (.body (.ret v)) { releaseOwn s with helper := .exiting }
+
+theorem step_cases {s s' : State} {op : Op} (h : step s op = some s') : StepCase s op s' := by
+  cases op with
+  | finish i =>
+    simp only [step] at h
+    split at h
+    · next o hst hout =>
+      split at h
+      · next hfl =>
+        split at h
+        · next had =>
+          simp at h; subst h
+          exact .ret i o hst hout had.2 (Or.inl ⟨by simp [hfl], had.1, Or.inl hfl⟩)
+        · simp at h; subst h
+          exact .plain i o hst hout (Or.inl hfl)
+      · next hfl =>
+        split at h
+        · next e hh => simp at h; subst h; exact .raiseF i e hst hout hfl hh
+        · next v hh =>
+          split at h
+          · next had =>
+            simp at h; subst h
+            exact .ret i _ hst hout had (Or.inl ⟨by simp [hfl], hh, Or.inr ⟨v, rfl⟩⟩)
+          · simp at h; subst h
+            exact .plain i _ hst hout (Or.inr (Or.inl ⟨Or.inl hfl, Or.inr ⟨v, rfl⟩⟩))
+        · next o' _ _ hne1 hne2 =>
+          simp at h; subst h
+          refine .plain i o' hst hout (Or.inr (Or.inl ⟨Or.inl hfl, ?_⟩))
+          cases o' with
+          | ret v => left; intro hh; exact hne2 v hh rfl
+          | raise e => left; intro hh; exact hne1 e hh rfl
+      · next hfl =>
+        split at h
+        · next e hh => simp at h; subst h; exact .raiseC i e hst hout hfl hh
+        · next v hh =>
+          split at h
+          · next had =>
+            simp at h; subst h
+            exact .ret i _ hst hout had (Or.inl ⟨by simp [hfl], hh, Or.inr ⟨v, rfl⟩⟩)
+          · simp at h; subst h
+            exact .plain i _ hst hout (Or.inr (Or.inl ⟨Or.inr hfl, Or.inr ⟨v, rfl⟩⟩))
+        · next o' _ _ hne1 hne2 =>
+          simp at h; subst h
+          refine .plain i o' hst hout (Or.inr (Or.inl ⟨Or.inr hfl, ?_⟩))
+          cases o' with
+          | ret v => left; intro hh; exact hne2 v hh rfl
+          | raise e => left; intro hh; exact hne1 e hh rfl
+      · next hfl =>
+        split at h
+        · next v =>
+          split at h
+          · next had =>
+            simp at h; subst h
+            exact .ret i _ hst hout had.2 (Or.inr ⟨hfl, had.1, v, rfl⟩)
+          · simp at h; subst h
+            exact .plain i _ hst hout (Or.inr (Or.inr ⟨hfl, v, rfl⟩))
+        · next e =>
+          split at h
+          · next hh => simp at h; subst h; exact .onlineFailExit i e hst hout hfl hh
+          · next hne => simp at h; subst h; exact .onlineFail i e hst hout hfl (fun hh => hne hh)
+    · simp at h
+  | body o =>
+    simp only [step] at h
+    split at h
+    · next hfl hh =>
+      split at h
+      · next e hexc => simp at h; subst h; exact .bodyRaise e hfl hh hexc
+      · next e0 hexc => simp at h; subst h; exact .bodyLate _ e0 hfl hh hexc
+      · next v hexc =>
+        split at h
+        · next had => simp at h; subst h; exact .bodyRet v hfl hh hexc had
+        · simp at h; subst h; exact .bodyWait v hfl hh hexc
+    · simp at h
+
+/-! ### what the building blocks do to the finished tasks -/
+
+theorem resOf_ne_cancelled (o : Outcome) : resOf o ≠ .cancelled := by cases o <;> simp [resOf]
+
+theorem complete_len (s : State) (i : Nat) (o : Outcome) : (complete s i o).st.length = s.st.length := by
+  simp [complete, admit_length]
+
+theorem complete_done (s : State) (i : Nat) (o : Outcome) (k : Nat) (q : Res) :
+    (complete s i o).st[k]? = some (.done q) ↔
+      (k = i ∧ i < s.st.length ∧ q = resOf o) ∨ (k ≠ i ∧ s.st[k]? = some (.done q)) := by
+  simp only [complete, admit_done, List.getElem?_set]
+  by_cases hk : i = k
+  · subst hk
+    by_cases hl : i < s.st.length
+    · simp [hl]; constructor <;> intro h <;> exact h.symm
+    · simp [hl]
+  · have : k ≠ i := fun h => hk h.symm
+    simp [hk, this]
+
+theorem leave_len (s : State) : (leave s).st.length = s.st.length := by
+  unfold leave; split <;> simp [admit_length]
+
+theorem leave_done (s : State) (k : Nat) (q : Res) : (leave s).st[k]? = some (.done q) ↔ s.st[k]? = some (.done q) := by
+  unfold leave; split <;> simp [admit_done]
+
+theorem leave_st_allDone (s : State) (h : allDone s.st = true) : (leave s).st = s.st := by
+  unfold leave; split
+  · simp [admit_allDone _ _ h]
+  · rfl
+
+theorem cancelFirst_len (s : State) (j : Nat) : (cancelFirst s j).st.length = s.st.length := by
+  simp [cancelFirst, admit_length, cancelBelow_length]
+
+theorem cancelFirst_done (s : State) (j k : Nat) (q : Res) (h : (cancelFirst s j).st[k]? = some (.done q)) :
+    q = .cancelled ∨ s.st[k]? = some (.done q) := by
+  simp only [cancelFirst, admit_done] at h
+  exact cancelBelow_done _ _ _ _ h
+
+theorem releaseOwn_len (s : State) : (releaseOwn s).st.length = s.st.length := by simp [releaseOwn, admit_length]
+
+theorem releaseOwn_done (s : State) (k : Nat) (q : Res) :
+    (releaseOwn s).st[k]? = some (.done q) ↔ s.st[k]? = some (.done q) := by simp [releaseOwn, admit_done]
+
+theorem returnNow_len (s : State) : (returnNow s).st.length = s.st.length := by simp [returnNow, leave_len]
+theorem returnNow_done (s : State) (k : Nat) (q : Res) :
+    (returnNow s).st[k]? = some (.done q) ↔ s.st[k]? = some (.done q) := by simp [returnNow, leave_done]
+theorem returnNow_st (s : State) (h : allDone s.st = true) : (returnNow s).st = s.st := by
+  simp only [returnNow]; exact leave_st_allDone _ h
+theorem raiseNow_len (s : State) (e p : Nat) (b : Bool) : (raiseNow s e p b).st.length = s.st.length := by
+  simp [raiseNow, leave_len]
+theorem raiseNow_done (s : State) (e p : Nat) (b : Bool) (k : Nat) (q : Res) :
+    (raiseNow s e p b).st[k]? = some (.done q) ↔ s.st[k]? = some (.done q) := by simp [raiseNow, leave_done]
+theorem raiseNow_st (s : State) (e p : Nat) (b : Bool) (h : allDone s.st = true) : (raiseNow s e p b).st = s.st := by
+  simp only [raiseNow]; exact leave_st_allDone _ h
+
+/-- finished tasks in submission order are the scripted outcomes in submission order -/
+theorem map_slotOf_eq (st : List TSt) (outs : List Outcome) (hlen : st.length = outs.length) (had : allDone st = true)
+    (hag : ∀ (i : Nat) (q : Res), st[i]? = some (TSt.done q) → q = .cancelled ∨ ∃ o, outs[i]? = some o ∧ q = resOf o)
+    (hnc : ∀ i : Nat, st[i]? ≠ some (TSt.done Res.cancelled)) : st.map slotOf = outs.map resOf := by
+  apply List.ext_getElem?
+  intro i
+  by_cases hi : i < st.length
+  · obtain ⟨q, hq⟩ := (allDone_iff st).mp had i hi
+    rcases hag i q hq with rfl | ⟨o, ho, rfl⟩
+    · exact absurd hq (hnc i)
+    · simp [hq, ho, slotOf]
+  · have h1 : st[i]? = none := by simp; omega
+    have h2 : outs[i]? = none := by simp; omega
+    simp [h1, h2]
+
+/-! ### control invariant -/
+
+structure Ctrl (s : State) : Prop where
+  len : s.st.length = s.outs.length
+  /-- a finished task ended with its scripted outcome, or was cancelled -/
+  agree : ∀ (i : Nat) (q : Res), s.st[i]? = some (TSt.done q) → q = .cancelled ∨ ∃ o, s.outs[i]? = some o ∧ q = resOf o
+  /-- nothing is cancelled before an exception has occurred -/
+  nocancel : s.exc = none → (∀ e, s.helper ≠ .raised e) → ∀ i : Nat, s.st[i]? ≠ some (TSt.done Res.cancelled)
+  ret : ∀ sl, s.helper = .returned sl → sl = s.st.map slotOf ∧ allDone s.st = true ∧ s.exc = none
+  exiting : s.helper = .exiting → s.flavour = .online ∧ s.exc = none
+  excOnline : ∀ e, s.exc = some e → s.flavour = .online ∧ allDone s.st = true
+  raisedExc : s.flavour = .online → ∀ e, s.helper = .raised e → s.exc = some e
+  rxNoRaise : s.flavour = .returnExceptions → ∀ e, s.helper ≠ .raised e
+
+/-- while a task is running nothing is shut down and the helper has not returned -/
+theorem ctrl_running {s : State} (hC : Ctrl s) {i : Nat} (hst : s.st[i]? = some .running) :
+    s.exc = none ∧ ∀ sl, s.helper ≠ .returned sl := by
+  constructor
+  · cases hexc : s.exc with
+    | none => rfl
+    | some e => exact absurd hst (allDone_get _ _ (hC.excOnline e hexc).2)
+  · intro sl hh
+    exact absurd hst (allDone_get _ _ (hC.ret sl hh).2.1)
+
+theorem ctrl_complete {s : State} (hC : Ctrl s) {i : Nat} {o : Outcome} (hst : s.st[i]? = some .running)
+    (hout : s.outs[i]? = some o) :
+    (complete s i o).st.length = s.outs.length ∧
+    (∀ (k : Nat) (q : Res), (complete s i o).st[k]? = some (TSt.done q) →
+      q = .cancelled ∨ ∃ o', s.outs[k]? = some o' ∧ q = resOf o') ∧
+    ((∀ k : Nat, s.st[k]? ≠ some (TSt.done Res.cancelled)) →
+      ∀ k : Nat, (complete s i o).st[k]? ≠ some (TSt.done Res.cancelled)) := by
+  refine ⟨by rw [complete_len]; exact hC.len, ?_, ?_⟩
+  · intro k q h
+    rcases (complete_done s i o k q).mp h with ⟨rfl, _, rfl⟩ | ⟨_, h2⟩
+    · exact Or.inr ⟨o, hout, rfl⟩
+    · exact hC.agree k q h2
+  · intro hnc k h
+    rcases (complete_done s i o k _).mp h with ⟨_, _, h3⟩ | ⟨_, h2⟩
+    · exact resOf_ne_cancelled o h3.symm
+    · exact hnc k h2
+
+theorem ctrl_step {s s' : State} {op : Op} (hC : Ctrl s) (h : StepCase s op s') : Ctrl s' := by
+  cases h with
+  | plain i o hst hout hside =>
+    obtain ⟨hexc, hnr⟩ := ctrl_running hC hst
+    obtain ⟨h1, h2, h3⟩ := ctrl_complete hC hst hout
+    refine ⟨h1, h2, ?_, ?_, ?_, ?_, ?_, ?_⟩
+    · intro he hr; exact h3 (hC.nocancel hexc hr)
+    · intro sl hh; exact absurd hh (hnr sl)
+    · intro hh; exact hC.exiting hh
+    · intro e he; simp [hexc] at he
+    · intro hfl e hh; have := hC.raisedExc hfl e hh; simp [hexc] at this
+    · exact hC.rxNoRaise
+  | ret i o hst hout had hside =>
+    obtain ⟨hexc, hnr⟩ := ctrl_running hC hst
+    obtain ⟨h1, h2, h3⟩ := ctrl_complete hC hst hout
+    have hst' := returnNow_st (complete s i o) had
+    refine ⟨by rw [returnNow_len]; exact h1, ?_, ?_, ?_, ?_, ?_, ?_, ?_⟩
+    · intro k q hk; exact h2 k q ((returnNow_done _ k q).mp hk)
+    · intro he hr k hk
+      refine h3 (hC.nocancel hexc ?_) k ((returnNow_done _ k _).mp hk)
+      intro e hh
+      rcases hside with ⟨_, ha, _⟩ | ⟨_, ha, _⟩ <;> simp [ha] at hh
+    · intro sl hh
+      simp at hh; subst hh
+      exact ⟨by rw [hst'], by rw [hst']; exact had, by simpa using hexc⟩
+    · intro hh; simp at hh
+    · intro e he; simp [hexc] at he
+    · intro hfl e hh; simp at hh
+    · intro hfl e hh; simp at hh
+  | raiseF i e hst hout hfl hh =>
+    obtain ⟨hexc, hnr⟩ := ctrl_running hC hst
+    obtain ⟨h1, h2, h3⟩ := ctrl_complete hC hst hout
+    refine ⟨by rw [raiseNow_len]; exact h1, ?_, ?_, ?_, ?_, ?_, ?_, ?_⟩
+    · intro k q hk; exact h2 k q ((raiseNow_done _ _ _ _ k q).mp hk)
+    · intro _ hr; exact absurd (raiseNow_helper _ e _ false) (hr e)
+    · intro sl hh'; simp at hh'
+    · intro hh'; simp at hh'
+    · intro e' he; simp [hexc] at he
+    · intro hfl' e' _; simp [hfl] at hfl'
+    · intro hfl' e' _; simp [hfl] at hfl'
+  | raiseC i e hst hout hfl hh =>
+    obtain ⟨hexc, hnr⟩ := ctrl_running hC hst
+    obtain ⟨h1, h2, h3⟩ := ctrl_complete hC hst hout
+    refine ⟨by rw [raiseNow_len, cancelFirst_len]; exact h1, ?_, ?_, ?_, ?_, ?_, ?_, ?_⟩
+    · intro k q hk
+      rcases cancelFirst_done _ _ k q ((raiseNow_done _ _ _ _ k q).mp hk) with hq | hq
+      · exact Or.inl hq
+      · exact h2 k q hq
+    · intro _ hr; exact absurd (raiseNow_helper _ e _ false) (hr e)
+    · intro sl hh'; simp at hh'
+    · intro hh'; simp at hh'
+    · intro e' he; simp [hexc] at he
+    · intro hfl' e' _; simp [hfl] at hfl'
+    · intro hfl' e' _; simp [hfl] at hfl'
+  | onlineFailExit i e hst hout hfl hh =>
+    obtain ⟨hexc, hnr⟩ := ctrl_running hC hst
+    obtain ⟨h1, h2, h3⟩ := ctrl_complete hC hst hout
+    have had := cancelFirst_allDone (complete s i (.raise e)) (complete s i (.raise e)).st.length (Nat.le_refl _)
+    refine ⟨by rw [raiseNow_len]; simp only [cancelFirst_len]; exact h1, ?_, ?_, ?_, ?_, ?_, ?_, ?_⟩
+    · intro k q hk
+      rcases cancelFirst_done _ _ k q ((raiseNow_done _ _ _ _ k q).mp hk) with hq | hq
+      · exact Or.inl hq
+      · exact h2 k q hq
+    · intro _ hr; exact absurd (raiseNow_helper _ e _ true) (hr e)
+    · intro sl hh'; simp at hh'
+    · intro hh'; simp at hh'
+    · intro e' he
+      refine ⟨by simpa using hfl, ?_⟩
+      rw [raiseNow_st _ _ _ _ had]; exact had
+    · intro _ e' hh'; simp at hh'; simp [hh']
+    · intro hfl' e' _; simp [hfl] at hfl'
+  | onlineFail i e hst hout hfl hh =>
+    obtain ⟨hexc, hnr⟩ := ctrl_running hC hst
+    obtain ⟨h1, h2, h3⟩ := ctrl_complete hC hst hout
+    have had := cancelFirst_allDone (complete s i (.raise e)) (complete s i (.raise e)).st.length (Nat.le_refl _)
+    refine ⟨by simp only [cancelFirst_len]; exact h1, ?_, ?_, ?_, ?_, ?_, ?_, ?_⟩
+    · intro k q hk
+      rcases cancelFirst_done _ _ k q hk with hq | hq
+      · exact Or.inl hq
+      · exact h2 k q hq
+    · intro he; simp at he
+    · intro sl hh'; exact absurd hh' (hnr sl)
+    · intro hh'; exact absurd hh' hh
+    · intro e' he; exact ⟨hfl, had⟩
+    · intro _ e' hh'
+      have := hC.raisedExc hfl e' hh'
+      simp [hexc] at this
+    · intro hfl' e' _; simp [hfl] at hfl'
+  | bodyRaise e hfl hh hexc =>
+    have had := cancelFirst_allDone s s.st.length (Nat.le_refl _)
+    refine ⟨by rw [raiseNow_len]; simp only [cancelFirst_len]; exact hC.len, ?_, ?_, ?_, ?_, ?_, ?_, ?_⟩
+    · intro k q hk
+      rcases cancelFirst_done _ _ k q ((raiseNow_done _ _ _ _ k q).mp hk) with hq | hq
+      · exact Or.inl hq
+      · exact hC.agree k q hq
+    · intro he; simp at he
+    · intro sl hh'; simp at hh'
+    · intro hh'; simp at hh'
+    · intro e' he
+      refine ⟨by simpa using hfl, ?_⟩
+      rw [raiseNow_st _ _ _ _ had]; exact had
+    · intro _ e' hh'; simp at hh'; simp [hh']
+    · intro hfl' e' _; simp [hfl] at hfl'
+  | bodyLate o e0 hfl hh hexc =>
+    have had := (hC.excOnline e0 hexc).2
+    refine ⟨by rw [raiseNow_len]; exact hC.len, ?_, ?_, ?_, ?_, ?_, ?_, ?_⟩
+    · intro k q hk; exact hC.agree k q ((raiseNow_done _ _ _ _ k q).mp hk)
+    · intro he; simp [hexc] at he
+    · intro sl hh'; simp at hh'
+    · intro hh'; simp at hh'
+    · intro e' he
+      refine ⟨by simpa using hfl, ?_⟩
+      rw [raiseNow_st _ _ _ _ had]; exact had
+    · intro _ e' hh'; simp at hh'; simp [hh', hexc]
+    · intro hfl' e' _; simp [hfl] at hfl'
+  | bodyRet v hfl hh hexc had =>
+    have hst' := returnNow_st (releaseOwn s) had
+    refine ⟨by rw [returnNow_len, releaseOwn_len]; exact hC.len, ?_, ?_, ?_, ?_, ?_, ?_, ?_⟩
+    · intro k q hk; exact hC.agree k q ((releaseOwn_done s k q).mp ((returnNow_done _ k q).mp hk))
+    · intro he hr k hk
+      refine hC.nocancel hexc ?_ k ((releaseOwn_done s k _).mp ((returnNow_done _ k _).mp hk))
+      intro e hh'; simp [hh] at hh'
+    · intro sl hh'
+      simp at hh'; subst hh'
+      exact ⟨by rw [hst'], by rw [hst']; exact had, by simpa using hexc⟩
+    · intro hh'; simp at hh'
+    · intro e' he; simp [hexc] at he
+    · intro _ e' hh'; simp at hh'
+    · intro hfl' e' _; simp [hfl] at hfl'
+  | bodyWait v hfl hh hexc =>
+    refine ⟨by simp only [releaseOwn_len]; exact hC.len, ?_, ?_, ?_, ?_, ?_, ?_, ?_⟩
+    · intro k q hk; exact hC.agree k q ((releaseOwn_done s k q).mp hk)
+    · intro he hr k hk
+      refine hC.nocancel hexc ?_ k ((releaseOwn_done s k _).mp hk)
+      intro e hh'; simp [hh] at hh'
+    · intro sl hh'; simp at hh'
+    · intro _; exact ⟨hfl, hexc⟩
+    · intro e' he; simp [hexc] at he
+    · intro _ e' hh'; simp at hh'
+    · intro hfl' e' _; simp [hfl] at hfl'
 
 /-! ### reachable states -/
 
